@@ -438,25 +438,44 @@ def iterate(I, o):
     return I.native(iter, o)
 
 
-def set_order(I, s):
+def canonical_set_items(I, s):
     items = list(s)
-    if I.options.get("set_order") != "nondet" or len(items) < 2:
-        try:
-            return sorted(items)          # a fixed, hash-seed independent order
-        except TypeError:
-            return sorted(items, key=I.serial)
-    # every iteration order is possible: n! pure choices
     try:
-        items = sorted(items)
+        return sorted(items)          # a fixed, hash-seed independent order
     except TypeError:
-        items = sorted(items, key=I.serial)
+        return sorted(items, key=I.serial)
+
+
+def set_order(I, s):
+    """the order in which a set is iterated where the order can be observed.  With option set_order=nondet every
+    order is explored (n! pure choices, one per set object and content: iteration order is stable while a set
+    is not modified) - this is how 'any PYTHONHASHSEED' is covered."""
+    items = canonical_set_items(I, s)
+    if I.options.get("set_order") != "nondet" or len(items) < 2:
+        return items
+    key = (id(s), tuple(I.serial(x) if not isinstance(x, (str, int)) else x for x in items))
+    memo = I.set_orders.get(key)
+    if memo is not None:
+        return list(memo)
+    if len(items) > 4:
+        I.unsupported("nondeterministic iteration of a set with more than 4 elements")
     out = []
     rest = items
     while len(rest) > 1:
         j = I.choose(len(rest))
         out.append(rest[j])
         rest = rest[:j] + rest[j + 1:]
-    return out + rest
+    out = out + rest
+    I.set_orders[key] = out
+    I._keepalive.append(s)
+    return list(out)
+
+
+def iterate_unordered(I, o):
+    """iteration whose order cannot influence the result (sorted(), set(), all(), ...): no fork"""
+    if isinstance(o, (set, frozenset)):
+        return canonical_set_items(I, o)
+    return iterate(I, o)
 
 
 def make_set(I, elts):
@@ -1502,14 +1521,14 @@ def _tuple(I, args, kwargs):
 def _set(I, args, kwargs):
     if not args:
         return set()
-    return make_set(I, list(iterate(I, args[0])))
+    return make_set(I, list(iterate_unordered(I, args[0])))
 
 
 @func_model(frozenset)
 def _frozenset(I, args, kwargs):
     if not args:
         return frozenset()
-    return frozenset(make_set(I, list(iterate(I, args[0]))))
+    return frozenset(make_set(I, list(iterate_unordered(I, args[0]))))
 
 
 @func_model(dict)
@@ -1553,7 +1572,7 @@ def _sort_keys(I, items, key, reverse):
 
 @func_model(sorted)
 def _sorted(I, args, kwargs):
-    items = list(iterate(I, args[0]))
+    items = list(iterate_unordered(I, args[0]) if kwargs.get("key") is None else iterate(I, args[0]))
     return _sort_keys(I, items, kwargs.get("key"), kwargs.get("reverse", False))
 
 
